@@ -19,6 +19,8 @@ DECIDING = ["accepted", "rows_exact", "truth_table_rows", "reach:translate_expre
 ASSUMPTIONS = [
     "typing discipline D of DESIGN section 2 (literal widths 2/4/6/8/12/16 by value, +-&|^ and if-expressions the wider operand, * the smallest listed width >= 2*max)",
     "inputs on which an intermediate leaves its range are judged only on the low bits that wrap-around determines, and only for ring-fragment programs",
+    "float literals are judged only when they have at most four fractional bits and are below 16 (the library types a float literal as the first shipped Qfixed type within 0.05 of it, "
+    "an approximation it documents; finer literals are outside the judged subset); operations between Qfixed values of different sizes are judged on the common grid (max integer bits, max fractional bits)",
 ]
 CASE_TIMEOUT = {"quick": 30, "thorough": 120}
 EXH_LIMIT = {"quick": 12, "thorough": 14}
